@@ -111,4 +111,7 @@ def cases(tier, seed):
     if os.environ.get("VERIF_SUBSET"):
         progs = progs[:: int(os.environ["VERIF_SUBSET"])]
     for node in progs:
+        if tier == "quick" and node.depth() >= 2 and node.kind not in ("vmap", "repeat", "scan", "switch", "mix", "or_else"):
+            # quick: doubly nested programs only under the combinators that derive or route keys
+            continue
         yield Case(node.name, _run(node, tier, seed), dict(program=node.name, kinds=sorted(node.kinds())))
